@@ -284,6 +284,16 @@ def run_nack(inp):
         if inp.get('reencode'):
             iw = R.interest_wire(tcomps, nonce=0x4242, lifetime=1234)
         wire = R.lp_wire(iw, headers + [R.nack_header(reason, width)])
+        gave_up = None
+        if inp.get('overlap') and target in sc.pend:
+            # a second Interest with the SAME name is outstanding, and the caller of the first one gives up in the very loop
+            # turn in which the Nack is delivered: the Nack still completes the other one with its reason
+            sc.pend['dup'] = case.spawn(fe.express(R.name_wire(tcomps), lifetime=4000, nonce=0x99))
+            await asyncio.sleep(0)
+            fe.face.sent.clear()
+            names['dup'] = tcomps
+            gave_up = target
+            sc.pend[target].cancel()
         try:
             await fe.app._receive(R.LP, wire)
         except Exception as e:
@@ -291,7 +301,9 @@ def run_nack(inp):
         await case.settle()
         desc = 'Nack(reason=%s%s) naming %s' % (reason, '' if width is None else ' in %d bytes' % width, R.name_uri(tcomps)
                                                  if target != 'digest' else '/p/dg/<implicit digest>')
-        named = {k for k, comps in names.items() if comps == tcomps and k in sc.pend}
+        named = {k for k, comps in names.items() if comps == tcomps and k in sc.pend and k != gave_up}
+        if gave_up is not None:
+            sc.pend = {k: t for k, t in sc.pend.items() if k != gave_up}
         if reason is None:
             # one defect, one key: a Nack header without NackReason must still be a Nack (NDNLPv2: reason "None")
             sym = []
@@ -342,7 +354,7 @@ def run_nack(inp):
             if not t.done() or exc_view(t) is not None or fe.result_view(t.result())[1] != b'with-digest':
                 viol('nack-damaged-other', desc + ': afterwards the Interest for the same name WITHOUT the digest did not '
                                                   'complete with its (wrapped) Data')
-        if 'zz' not in named and not sc.pend['zz'].done():
+        if 'zz' in sc.pend and 'zz' not in named and not sc.pend['zz'].done():
             await fe.app._receive(6, R.data_wire(ZZ, b'zz-content'))
             await case.settle()
             t = sc.pend['zz']
@@ -497,6 +509,11 @@ def gen_cases(tier, seed):
             for idx, cnt in [(0, 2), (1, 2), (None, 2), (1, None), (0, 0x10000), (3, 4), (255, 256)]:
                 for seq in (False, True):
                     cases.append(('fragmented', {'fe': fe, 'pkt': mw.hex(), 'index': idx, 'count': cnt, 'seq': seq}))
+    for fe in ('v2', 'v1'):
+        for target in ('pq', 'pqr', 'zz'):
+            for r in (0, 100, 150):
+                cases.append(('nack', {'fe': fe, 'reason': r, 'width': None, 'target': target, 'reencode': False, 'headers': [],
+                                       'overlap': True}))
     for fe in ('v2', 'v1'):
         for target in ('pq', 'p*', 'pqr', 'zz', 'none', 'digest'):
             for r in REASONS:
